@@ -106,7 +106,7 @@ class Interp:
             vals = [it[i] for it in its]
             if any(isinstance(v, Poison) for v in vals):
                 o[i] = Poison("propagated"); continue
-            if any(isinstance(v, NonFinite) for v in vals) and getattr(f, "__name__", "") not in ("sel",):
+            if any(isinstance(v, NonFinite) for v in vals) and getattr(f, "__name__", "") not in ("sel",) and not getattr(self, "_nf_ok", False):
                 raise Unsupported(f"arithmetic on non-finite constant in real mode ({getattr(f, '__name__', f)})")
             o[i] = f(*vals)
         return out
@@ -347,6 +347,11 @@ class Interp:
     def p_erfc(self, e, a): return self.ew(lambda x: self.fn("erfc", self.F, self.F)(x), *a)
     def p_erf(self, e, a): return self.ew(lambda x: self.fn("erf", self.F, self.F)(x), *a)
     def p_ndtri(self, e, a): return self.ew(lambda x: self.fn("ndtri", self.F, self.F)(x), *a)
+
+    def p_is_finite(self, e, a):
+        if self.mode == "real":
+            return self.ew(lambda x: z3.BoolVal(not isinstance(x, NonFinite)), *a)
+        return self.ew(lambda x: z3.And(z3.Not(z3.fpIsNaN(x)), z3.Not(z3.fpIsInf(x))), *a)
 
     def p_square(self, e, a): return self.ew(lambda x: self.mul(x, x), *a)
     def p_rsqrt(self, e, a): return self.ew(lambda x: self.div(self.fconst(1), self.sqrt(x)), *a)
